@@ -126,7 +126,7 @@ func verifC16Mut(mk func() verifC16Msg, eq func(a, b verifC16Msg) bool, tmpl ver
 func VerifC16_tags() {
 	nmax := 4
 	if verifThorough() {
-		nmax = 7
+		nmax = 6
 	}
 	n := verifChoose(nmax + 1)
 	src := verifNondetBytes("b", n)
